@@ -3,6 +3,7 @@ across upgrade."""
 from .. import gen as _gen
 from .. import oracles
 from ..scenario import run_server_scenario
+from ..kernel import TICK
 from ._common import *  # noqa
 
 ID = 'C03'
@@ -33,6 +34,53 @@ def gen(rng, tier, i):
 
 
 gen = _gen.with_lines(gen, ['send', 'poll', 'writer', 'handle_get_request', '_websocket_handler', 'close'])
+
+_gen_general = gen
+
+
+def gen_poll_at_upgrade_end(rng, tier, i):
+    """Threaded server: messages queued during the handshake, stray polling
+    reads arriving while the handler thread finishes it, and that thread
+    losing the CPU somewhere in between (stall run focused on it)."""
+    plan = _gen.gen_server_plan(rng, _gen.profile(
+        servers=['threaded'], max_sessions=2, p_ws_open=0.0, p_upgrade=1.0,
+        p_sabotage=0.0, p_second_upgrade=0.0, sends=(2, 8),
+        client_msgs=(0, 1), p_end=0.1, p_app_disconnect=0.0,
+        p_disconnect_all=0.0, p_handler_fault=0.0, p_reject=0.0,
+        p_ws_fault=0.0, p_overlap_polls=0.0, p_pong_misbehave=0.0,
+        p_late_open=0.0))
+    plan['snapshots'] = []
+    for s in plan['sessions']:
+        ups = s.get('upgrades') or []
+        if not ups:
+            continue
+        ups[0].pop('steps', None)
+        s['upgrades'] = ups[:1]
+        t_up = ups[0]['t']
+        s.setdefault('poll', {})['extra'] = sorted(
+            t_up + k * TICK for k in rng.sample(range(2, 150), 16))
+        for k in rng.sample(range(2, 100), rng.randint(2, 5)):
+            plan['app'].append({
+                't': s.get('t_open', 0.0) + t_up + k * TICK, 'op': 'send',
+                'c': plan['sessions'].index(s),
+                'data': {'k': 's', 'v': 'held-%d-%d' % (
+                    plan['sessions'].index(s), k)}})
+    plan['app'].sort(key=lambda o: o['t'])
+    plan['fixed_latency'] = rng.choice([None, None, 1])
+    plan['line'] = {'mean': rng.choice([6, 12, 20]), 'max': 64,
+                    'focus': ['_websocket_handler'],
+                    'stall': rng.choice([16, 32])}
+    return plan
+
+
+def gen(rng, tier, i):
+    if rng.random() < 0.06:
+        return gen_poll_at_upgrade_end(rng, tier, i)
+    return _gen_general(rng, tier, i)
+
+
+gen.lines = True
+
 
 def run(plan, sched_values=None, sched_seed=0):
     h = run_server_scenario(plan, sched_values, sched_seed)
